@@ -192,6 +192,76 @@ int main(int argc, char ** argv)
     fprintf(OUT, "{\"draws\":%zu,\"event\":%s}\n", d, event_json(ex).c_str());
     return 0;
   }
+  if (mode == "cfghash") {
+    // c07_statics cfghash <spec> <seed> <n_iid> <first> <count> <warm order seed | 0>
+    // hash of the event stream (all items, fixed tapes) of configurations first .. first+count-1; with a warm order seed the process
+    // first walks the items of EVERY configuration in that shuffled order (whatever the library keeps for the life of a process - a
+    // cache filled by the first caller - is then filled by somebody else), without it the process does nothing else
+    if (argc < 8) return 2;
+    load_spec(argv[2], seed, atol(argv[4]));
+    size_t first = (size_t)atol(argv[5]), count = (size_t)atol(argv[6]);
+    uint64_t warm = strtoull(argv[7], 0, 10);
+    if (warm) {
+      std::vector<size_t> order(g_items.size());
+      for (size_t i = 0; i < order.size(); i++) order[i] = i;
+      Rng ro(warm, 7073);
+      for (size_t i = order.size(); i > 1; i--) std::swap(order[i - 1], order[ro.below(i)]);
+      for (size_t oi : order) {
+        bxdecay0::event e;
+        try {
+          shoot_item(g_items[oi], seed, e);
+        } catch (std::exception &) {
+        }
+      }
+    }
+    std::string js = "[";
+    bool firstrec = true;
+    for (size_t ci = first; ci < first + count && ci < g_cfgs.size(); ci++) {
+      uint64_t h = 1469598103934665603ull;
+      long n = 0;
+      std::string err;
+      for (auto & it : g_items) {
+        if ((size_t)it.cfg != ci) continue;
+        bxdecay0::event e;
+        try {
+          // a generator of its own for the hashed stream (the warm-up used the cached one)
+          const Cfg & c = g_cfgs[ci];
+          static std::unique_ptr<decay0_generator> g;
+          static size_t gci = (size_t)-1;
+          if (gci != ci) {
+            g.reset(new decay0_generator);
+            if (c.kind == 'B') {
+              g->set_decay_category(decay0_generator::DECAY_CATEGORY_BACKGROUND);
+              g->set_decay_isotope(c.name);
+            } else {
+              g->set_decay_category(decay0_generator::DECAY_CATEGORY_DBD);
+              g->set_decay_isotope(c.name);
+              g->set_decay_dbd_level(c.level);
+              g->set_decay_dbd_mode((bxdecay0::dbd_mode_type)c.mode);
+            }
+            Tape ti(seed, 3);
+            g->initialize(ti);
+            gci = ci;
+          }
+          Tape t(seed, it.stream);
+          for (auto & p : it.pins) t.pin(p.first, p.second);
+          g->shoot(t, e);
+          h = (h ^ hash_str(event_json(e))) * 1099511628211ull;
+          h = (h ^ (uint64_t)t.pos) * 1099511628211ull;
+          n++;
+        } catch (std::exception & x) {
+          err = x.what();
+          break;
+        }
+      }
+      js += fmt("%s{\"cfg\":%zu,\"config\":%s,\"items\":%ld,\"hash\":\"%016llx\",\"error\":%s}", firstrec ? "" : ",", ci, jstr(g_cfgs[ci].label()).c_str(), n, (unsigned long long)h,
+                jstr(err.substr(0, 100)).c_str());
+      firstrec = false;
+    }
+    js += "]";
+    fprintf(OUT, "{\"mode\":\"cfghash\",\"warm\":%llu,\"configs\":%s}\n", (unsigned long long)warm, js.c_str());
+    return 0;
+  }
   if (mode == "firstuse" || mode == "fuinject") {
     if (argc < 7) return 2;
     long n_iid = atol(argv[4]);
